@@ -11,7 +11,7 @@ use vh::*;
 fn profile(fl: Fl, mode: u32) -> Profile {
     Profile {
         mint: 50, transfer: 110, transfer_from: 230, burn: 40, burn_from: 110, approve: 210, approve_all: 140, advance: 110,
-        p_wrong_auth: 28, mint_mode: mode, batches: std::vec![1, 2, 3],
+        p_wrong_auth: 28, mint_mode: mode, p_long_advance: 12, batches: std::vec![1, 2, 3],
         max_ids: if fl == Fl::Cons { 12 } else { 7 },
     }
 }
@@ -20,7 +20,7 @@ struct Gen { lus: Vec<u32> }
 
 fn one_step(w: &mut World, out: &mut Out, rng: &mut Rng, g: &mut Gen, p: &Profile) {
     let mut c = w.gen_call(rng, p);
-    if let Call::Advance(_) = c {
+    if let Call::Advance(1..=9) = c {
         // half of the time land exactly on / just past the expiry of an approval given earlier
         let live: Vec<u32> = g.lus.iter().cloned().filter(|l| *l >= w.now && *l - w.now < 60).collect();
         if !live.is_empty() && rng.chance(1, 2) {
@@ -107,6 +107,7 @@ fn main() {
     let thorough = out.cfg.thorough;
     let scale = out.cfg.scale as usize;
     directed(&mut out, &mut rng);
+    persistence_scenarios(&mut out, &mut rng);
     let (ntr, nsteps) = if thorough { (600 * scale, 70) } else { (111 * scale, 45) };
     for i in 0..ntr {
         let fl = match i % 3 { 0 => Fl::Base, 1 => Fl::Enum, _ => Fl::Cons };
